@@ -11,6 +11,7 @@ CONSTANTS
   Addl <- TAddl
   Ops <- TOps
   MaxWord = 0
+  Letters = {"n", "b"}
 INVARIANT TypeOK
 INVARIANT Inv
 PROPERTY StepProp
